@@ -68,6 +68,7 @@ def _cases(draw, nmax):
     # Frenkel ones whatever else is done with the aggregate)
     uses = draw(st.lists(st.sampled_from(["diagonalize", "read-in-eigenbasis", "read"]), max_size=2))
     return {"N": n, "E": E, "J": J, "d": d, "mult": mult, "perm": list(perm), "uses": uses,
+            "rebuild_shift": draw(st.sampled_from([0, 0, 130, -75])),
             "u_in": draw(st.sampled_from(UNITS)), "u_build": draw(st.sampled_from(UNITS)), "geom": geom}
 
 
@@ -200,6 +201,41 @@ def check_case(case, ctx):
         ctx.close("relabel/spectrum", evp, ev, rtol=1e-10, scale=escale)
         ctx.close("relabel/one-photon-moments", m1p, m1, rtol=1e-9, scale=max(1e-12, float(numpy.max(numpy.abs(m1)))))
         ctx.close("relabel/two-photon-moments", m2p, m2, rtol=1e-9, scale=max(1e-12, float(numpy.max(numpy.abs(m2)))))
+
+    # ---- exciton quantities of a re-used aggregate -------------------------------------------------------
+    # dipole strengths asked for inside the eigenbasis (as the first thing done there), and the diagonalised aggregate
+    # after a parameter was changed and the aggregate was rebuilt
+    evs, SSo = numpy.linalg.eigh(Href)
+    gaps_ok = len(evs) < 2 or float(numpy.min(numpy.diff(evs))) > 1e-6 * escale
+    if gaps_ok and mult == 1:
+        def strengths():
+            a = build_aggregate(qr, E, J, d, mult, "1/cm", "1/cm")
+            Hh, Dd = a.get_Hamiltonian(), a.get_TransitionDipoleMoment()
+            with qr.eigenbasis_of(Hh):
+                return [float(Dd.dipole_strength(0, k)) for k in range(1, len(evs))]
+        ok, got = guarded(ctx, "dipole-strength", strengths)
+        if ok:
+            want = []
+            for k in range(1, len(evs)):
+                vec = numpy.einsum("a,b,abi->i", SSo[:, 0], SSo[:, k], Dref)
+                want.append(float(vec @ vec))
+            ctx.close("dipole-strength/in-eigenbasis", got, want, rtol=1e-9, scale=max(1e-12, max(want) if want else 1.0))
+    if gaps_ok and case.get("rebuild_shift"):
+        def rebuilt():
+            a = build_aggregate(qr, E, J, d, mult, "1/cm", "1/cm")
+            a.diagonalize()
+            with qr.energy_units("1/cm"):
+                a.monomers[0].set_energy(1, float(E[0] + case["rebuild_shift"]))
+            a.rebuild(mult=mult)
+            a.diagonalize()
+            return numpy.array(a.HD, dtype=float)
+        ok, hd = guarded(ctx, "rebuild", rebuilt)
+        if ok:
+            E2 = list(Eint)
+            E2[0] = (E[0] + case["rebuild_shift"]) * orc.CM2INT
+            H2, _ = orc.frenkel_matrices(sigs, E2, Jint, d)
+            ctx.close("rebuilt-aggregate/exciton-energies", numpy.sort(hd), numpy.linalg.eigvalsh(H2), rtol=1e-9, scale=escale)
+            ctx.label("rebuilt-after-energy-change")
 
     # ---- point-dipole couplings -----------------------------------------------------
     g = case["geom"]
